@@ -198,7 +198,8 @@ func stateArg(e pevent) string {
 
 // C12.R1-R4: typestate rules over all notification sequences.
 func c12Traces(c *Ctx) {
-	c.explain("C12.R1-R4 the step goroutine (run() and everything it calls, inlined) is explored path-sensitively: every select case, every unknown branch and both outcomes of every fallible call are forked; each distinct notification sequence must (R1) mention only declared stages and finish no stage before the stages with a declared And-edge into it, (R2) report only declared (stage, output) pairs, (R3) finish no stage twice and never both finish and fail a stage, (R4) contain exactly one completion, reported with state=finished, (R9) report every stage that has a declared And-edge from a finished stage as finished or impossible before the goroutine ends, (R11) report nothing in state `finished` before the completion, (R12) report a stage with an engine-provided input as finished only after that input was received, (R13) report the plugin step as `running` only after the goroutine that executes the plugin was launched")
+	c.explain("C12.R1-R4 the step goroutine (run() and everything it calls, inlined) is explored path-sensitively: every select case, every unknown branch and both outcomes of every fallible call are forked; each distinct notification sequence must (R1) mention only declared stages and finish no stage before the stages with a declared And-edge into it, (R2) report only declared (stage, output) pairs, (R3) finish no stage twice and never both finish and fail a stage, (R4) contain exactly one completion, reported with state=finished, (R9) report every stage that has a declared And-edge from a finished stage as finished or impossible before the goroutine ends — unless the run loop itself declares the unfinished stages of a completed step impossible (the completion sweep recognised by C15.R8), in which case such a stage is decided at the completion at the latest, (R11) report nothing in state `finished` before the completion, (R12) report a stage with an engine-provided input as finished only after that input was received, (R13) report the plugin step as `running` only after the goroutine that executes the plugin was launched")
+	sweepOK, sweepWhy := c.completionSweep()
 	for _, prov := range []string{"plugin", "foreach"} {
 		ts := c.stepTraces(prov)
 		c.Stats["traces_"+prov] = len(ts.traces)
@@ -449,13 +450,25 @@ func c12Traces(c *Ctx) {
 					continue
 				}
 				for nx, kind := range sd.nexts {
+					// completion edges that today's tree accounts for on every path (confirmed by reading, frozen here): the loop
+					// step reports `failed` impossible when it succeeds and `outputs` impossible when it fails, so that
+					// !wait-optional references to either are decided as soon as the loop has finished
+					if kind == "CompletionAndDependency" && c12AccountedCompletion[prov+":"+s+">"+nx] && fin[nx] == 0 && !failed[nx] {
+						r9 = append(r9, fmt.Sprintf("stage %s is reported finished but %s, its declared alternative outcome, is never reported finished or impossible: whatever waits for it to be decided (a !wait-optional reference) stays pending", s, nx))
+					}
 					if kind == "AndDependency" && fin[nx] == 0 && !failed[nx] {
 						r9 = append(r9, fmt.Sprintf("stage %s is reported finished but its declared successor %s is never reported finished or impossible", s, nx))
 					}
 				}
 			}
 			sort.Strings(r9)
-			c.verdict(len(r9) == 0, "C12.R9", key, pos, "every And-successor of a finished stage is accounted for", strings.Join(r9, "; "), path...)
+			if len(r9) > 0 && sweepOK {
+				// not reported by the provider, but decided by the run loop at the step's completion (every explored path has
+				// exactly one completion, R4): the stage is only decided later, not never
+				c.ok("C12.R9", key, pos, "not every successor is reported by the provider ("+strings.Join(r9, "; ")+"), but "+sweepWhy, true)
+			} else {
+				c.verdict(len(r9) == 0, "C12.R9", key, pos, "every And-successor of a finished stage is accounted for", strings.Join(r9, "; "), path...)
+			}
 			// R15: a stage that declares outputs is reported finished only together with one of them. Finishing it with no
 			// output resolves the stage node but leaves every declared output node neither resolved nor impossible: whatever
 			// waits for <step>.<stage>.<output> stays pending, and the run can only end through the fallback detector — once
@@ -478,6 +491,11 @@ func c12Traces(c *Ctx) {
 			c.verdict(len(r15) == 0, "C12.R15", key, pos, "stages with declared outputs finish with one of them", strings.Join(r15, "; "), path...)
 		}
 	}
+}
+
+// completion edges (provider:stage>successor) whose successor the provider accounts for on every path of today's tree
+var c12AccountedCompletion = map[string]bool{
+	"foreach:execute>failed": true,
 }
 
 func hasEvent(t []pevent, kind string, argPrefix string) int {
